@@ -1,4 +1,184 @@
+//! C11 — hues behave as angles on a circle.
+//! Complete walk of every f32 bit pattern with |x| <= 2^20 through the normal forms, equality
+//! and the 8-bit mapping of the hue types, with an exact oracle (f64 error-free arithmetic,
+//! see oracle.rs); whole-turn equality on integer/dyadic lattices; f64 lattices; all 256 8-bit
+//! hues; cartesian round trip; Add/Sub; the five hue types × {f32, f64} through one macro.
+mod ops;
+mod oracle;
+mod point;
+mod subs;
+mod walk;
+mod widec;
+
+use ops::HueOps;
+use oracle::*;
+use point::*;
+use pv::fl::Fl;
+use pv::{Collector, Ctx, Mode, Tier, Value};
+
+macro_rules! for_all {
+    ($m:ident :: $f:ident, $($args:expr),*) => {{
+        $m::$f::<ops::RgbF32>($($args),*);
+        $m::$f::<ops::LabF32>($($args),*);
+        $m::$f::<ops::LuvF32>($($args),*);
+        $m::$f::<ops::OklabF32>($($args),*);
+        $m::$f::<ops::Cam16F32>($($args),*);
+        $m::$f::<ops::RgbF64>($($args),*);
+        $m::$f::<ops::LabF64>($($args),*);
+        $m::$f::<ops::LuvF64>($($args),*);
+        $m::$f::<ops::OklabF64>($($args),*);
+        $m::$f::<ops::Cam16F64>($($args),*);
+    }};
+}
+
+fn replay_typed<H: HueOps>(c: &mut Collector, case: &Value) {
+    let bits = |v: &Value| <H::T as Fl>::from_bits64(parse_hex(v));
+    let mut l = Loc::default();
+    match case["sub"].as_str().unwrap_or("") {
+        "point" => {
+            let x = bits(&case["input"]);
+            let code = check_point::<H>(c, x, ALL, &mut l);
+            check_extras::<H>(c, x, &mut l);
+            println!("{}: x = {:e} ({})  into_degrees = {:e}  into_positive_degrees = {:e}  into_radians = {:e}  u8 = {}  x==x: {}", H::name(), x.to64(), hx(x), H::deg(x).to64(), H::pos(x).to64(), H::rad(x).to64(), code, H::eq(x, x));
+            if case["check"] == "u8-bins" {
+                let want = case["expected"].as_u64().unwrap_or(0) as u8;
+                if code != want {
+                    c.violation(&format!("C11/u8-bins/{}/replay", H::name()), 1.0, || case.clone());
+                }
+            }
+        }
+        "pair" => {
+            let (x, y) = (bits(&case["input"][0]), bits(&case["input"][1]));
+            println!("{}: x = {:e}, y = {:e}: x==y {}  y==x {}  x!=y {}  positive degrees {:e} / {:e}  exact (y−x) mod 360 = {:e}", H::name(), x.to64(), y.to64(), H::eq(x, y), H::eq(y, x), H::ne(x, y), H::pos(x).to64(), H::pos(y).to64(), circ_diff(y.to64(), x.to64()));
+            if case["relation"] == "eq" {
+                if x.bits64() == y.bits64() {
+                    check_point::<H>(c, x, ALL, &mut l);
+                } else {
+                    check_eq_pair::<H>(c, x, y, &mut l);
+                }
+            } else {
+                check_ne::<H>(c, x, y, &mut l);
+            }
+        }
+        "u8-chain" => {
+            let (lo, hi) = (bits(&case["input"][0]), bits(&case["input"][1]));
+            let (clo, chi) = (H::to_u8(lo), H::to_u8(hi));
+            println!("{}: code({:e}) = {clo}, code({:e}) = {chi}", H::name(), lo.to64(), hi.to64());
+            walk::chain_pair::<H>(c, &mut l, lo, hi, clo, chi);
+        }
+        "u8-code" => {
+            let code = case["input"].as_u64().unwrap_or(0) as u8;
+            println!("{}: code {code} -> {:e} -> {}", H::name(), H::from_u8(code).to64(), H::to_u8(H::from_u8(code)));
+            // the ordering check of u8_codes needs the neighbours: re-run the (256-element) sub-check
+            let ctx = Ctx::from_args("C11").0;
+            subs::u8_codes::<H>(&ctx, c);
+        }
+        "cart" => {
+            let (a, b) = (bits(&case["input"][0]), bits(&case["input"][1]));
+            let h = H::from_cart(a, b);
+            println!("{}: from_cartesian({:e}, {:e}) = {:e}°, into_cartesian = {:?}", H::name(), a.to64(), b.to64(), h.to64(), H::into_cart(h));
+            subs::check_cart::<H>(c, a, b, &mut l);
+        }
+        "cart-angle" => {
+            let th = bits(&case["input"]);
+            println!("{}: into_cartesian({:e}°) = {:?}", H::name(), th.to64(), H::into_cart(th));
+            subs::check_cart_angle::<H>(c, th, &mut l);
+        }
+        "arith" => {
+            let (x, y) = (bits(&case["input"][0]), bits(&case["input"][1]));
+            println!("{}: arith({:e}, {:e}) = {:?}", H::name(), x.to64(), y.to64(), H::arith(x, y));
+            subs::check_arith::<H>(c, x, y, &mut l);
+        }
+        "walk-block" => {
+            let i = &case["input"];
+            let (cc, _) = walk::walk_block::<H>(i["block"].as_u64().unwrap() as usize, i["stride"].as_u64().unwrap(), i["phase"].as_u64().unwrap(), ALL, 0, "replay");
+            c.merge(cc);
+        }
+        "walk" => {
+            // aggregate findings (onto / wrap count): re-run the walk of that type
+            let ctx = Ctx::from_args("C11").0;
+            let i = &case["input"];
+            walk::walk::<H>(&ctx, c, i["stride"].as_u64().unwrap_or(1), i["phase"].as_u64().unwrap_or(0), ALL);
+        }
+        "equality-chunk" => {
+            let ctx = Ctx::from_args("C11").0;
+            subs::equality_turns::<H>(&ctx, c);
+        }
+        other => {
+            eprintln!("unknown replay sub {other}");
+            std::process::exit(3)
+        }
+    }
+    l.flush_viol(c);
+}
+
+fn replay(c: &mut Collector, rep: &Value) {
+    let case = &rep["case"];
+    let hue = case["hue"].as_str().unwrap_or("");
+    let ty = case["ty"].as_str().unwrap_or("");
+    if case["sub"] == "wide" {
+        let bits: Vec<u64> = case["input"].as_array().map(|a| a.iter().map(parse_hex).collect()).unwrap_or_default();
+        widec::replay_wide(c, hue, ty, &bits);
+        return;
+    }
+    with_hue!(hue, ty, H => replay_typed::<H>(c, case));
+}
+
 fn main() {
-    eprintln!("C11: check not built yet");
-    std::process::exit(3);
+    pv::main_guard(real_main)
+}
+
+fn real_main() -> i32 {
+    selftest();
+    let (ctx, mode) = Ctx::from_args("C11");
+    if let Mode::Replay(rep) = mode {
+        let mut c = Collector::new();
+        replay(&mut c, &rep);
+        return ctx.finish_replay(c);
+    }
+    let mut total = Collector::new();
+    let thorough = ctx.tier == Tier::Thorough;
+    // complete f32 space: RgbHue<f32> always (radian accessors there only in thorough); the
+    // other four f32 hue types complete in thorough, every 64th pattern (different phases, all
+    // checks incl. radians) in quick; the f32 set embedded in f64 every 256th / 8th pattern.
+    let prof = std::env::var("C11_PROF").unwrap_or_default();
+    let hot = if !prof.is_empty() {
+        Flags { radians: prof.contains('r'), u8c: prof.contains('u'), pairs: if prof.contains('p') { 1 } else { 0 } }
+    } else if thorough {
+        HOT
+    } else {
+        HOT_QUICK
+    };
+    walk::walk::<ops::RgbF32>(&ctx, &mut total, 1, 0, hot);
+    let s32 = if thorough { 1 } else { 64 };
+    let f32fl = if thorough { HOT } else { ALL };
+    walk::walk::<ops::LabF32>(&ctx, &mut total, s32, 1, f32fl);
+    walk::walk::<ops::LuvF32>(&ctx, &mut total, s32, 17, f32fl);
+    walk::walk::<ops::OklabF32>(&ctx, &mut total, s32, 33, f32fl);
+    walk::walk::<ops::Cam16F32>(&ctx, &mut total, s32, 49, f32fl);
+    let s64 = if thorough { 8 } else { 256 };
+    walk::walk::<ops::RgbF64>(&ctx, &mut total, s64, 0, ALL);
+    walk::walk::<ops::LabF64>(&ctx, &mut total, s64, 1, ALL);
+    walk::walk::<ops::LuvF64>(&ctx, &mut total, s64, 2, ALL);
+    walk::walk::<ops::OklabF64>(&ctx, &mut total, s64, 3, ALL);
+    walk::walk::<ops::Cam16F64>(&ctx, &mut total, s64, 4, ALL);
+    for_all!(subs::lattice, &ctx, &mut total);
+    for_all!(subs::equality_turns, &ctx, &mut total);
+    for_all!(subs::u8_codes, &ctx, &mut total);
+    for_all!(subs::cartesian, &ctx, &mut total);
+    for_all!(subs::arith, &ctx, &mut total);
+    widec::wide_lanes(&ctx, &mut total);
+    ctx.finish(
+        total,
+        "model_checking",
+        "states = stored angles (f32 bit patterns with |x| <= 2^20 walked by increasing magnitude, both signs — complete for RgbHue<f32> in quick and for all five f32 hue types in thorough; f64 lattices; integer and dyadic angles × whole-turn shifts; all 256 8-bit hues; direction grid; operand pairs), each pushed through the public hue API of LabHue/LuvHue/RgbHue/OklabHue/Cam16Hue and compared with an exact prediction (error-free f64 arithmetic, cross-checked against i128); non-trivial = inputs whose signed or unsigned normal form differs from the stored angle (normalisation moved the value), resp. pairs to which the equality/inequality clause applies",
+        &[
+            "rounding error of the stored angle is taken as ulp(x) (spacing above |x|) + ulp(360) in the hue's float type, for range and congruence alike",
+            "hues must compare unequal only when the exact distance mod 360 exceeds 4·max(ulp(x), ulp(y), ulp(360)); closer pairs are not judged",
+            "8-bit code: nearest integer to (x mod 360)·256/360 mod 256; within (ulp(x)+ulp(360))·256/360 + 8 ulp(256) of a tie either neighbour is accepted",
+            "degree/radian consistency: 16 ulp of the result; cartesian: 32 ulp(360) on the angle, 128 eps on the direction of the unit vector (libm atan2/sin_cos accurate to ~1 ulp)",
+            "f64 inputs: every f32-representable double on a stride plus special points (multiples of 180 ± 3 ulp, 8-bit ties ± 2 ulp, ±2^k(1±2^-52) for every exponent); other doubles are not enumerated",
+            "float→u8→float→u8 is checked on lattices and follows for every float from the all-256 u8→float→u8 identity (the intermediate is one of 256 values)",
+        ],
+    )
 }
